@@ -93,6 +93,13 @@ pub fn to_json(s: &[Decision], img: &FsImage) -> Value {
                 Decision::Timeout { fired } => json!({ "op": "timed_wait", "deadline_passed": fired }),
                 Decision::Program { name, available } => json!({ "op": "external_program", "name": name, "installed": available }),
                 Decision::FdLimit { n } => json!({ "op": "open_file_limit", "ulimit_n": n }),
+                Decision::ReadFault { at } => {
+                    if *at == crate::world::NO_FAULT {
+                        json!({ "op": "read_error", "errno": "none" })
+                    } else {
+                        json!({ "op": "read_error", "errno": "EIO", "at_read": at })
+                    }
+                }
             })
             .collect(),
     )
@@ -153,6 +160,11 @@ pub fn from_json(v: &Value, img: &FsImage) -> Result<Vec<Decision>, String> {
             Some("open_file_limit") => out.push(Decision::FdLimit {
                 n: e["ulimit_n"].as_u64().unwrap_or(crate::world::DEFAULT_FD_LIMIT as u64) as u32,
             }),
+            Some("read_error") => {
+                if let Some(at) = e["at_read"].as_u64() {
+                    out.push(Decision::ReadFault { at });
+                }
+            }
             o => return Err(format!("unknown schedule op {:?}", o)),
         }
     }
